@@ -1049,8 +1049,11 @@ def _interp_common(s1, s2, sampling, method, fill_value):
 
     # number of intervals: a ratio that is an integer up to rounding (e.g. a
     # range of 1.0 in steps of 0.1 gives 10.000000000000002) is that integer
+    # (the step is a difference of wavelengths and carries their rounding:
+    # eps*wavelength/step relative, 1e-8 for picometre steps at a micrometre)
     num = (maxwave - minwave)/dwave
-    if abs(num - np.round(num)) <= 1e-9*max(num, 1):
+    rtol = max(1e-9, 8*np.finfo(float).eps*max(abs(minwave), abs(maxwave))/dwave)
+    if abs(num - np.round(num)) <= min(rtol*max(num, 1), 0.25):
         num = int(np.round(num))
     else:
         num = int(np.ceil(num))
